@@ -343,3 +343,10 @@ impl LanguageServer {
         self.format(uri)
     }
 }
+
+/// Verification hook: the private `end_of_document`.
+#[cfg(sqruff_verif)]
+pub fn verif_end_of_document(text: &str) -> (u32, u32) {
+    let position = end_of_document(text);
+    (position.line, position.character)
+}
